@@ -362,11 +362,64 @@ func runC01(c *eng.Ctx) {
 				"with a CURRENT file present the new journal (a snapshot of the recovered state) is written only after the old one was replayed successfully; a journal without replay is created only when no CURRENT file exists",
 				fmt.Sprintf("dominated by replay on the CURRENT-exists paths: %v, reachable after a failed replay: %v", byReplay, viaFail))
 		}
+		// F25: a torn FINAL record (the process died while appending the commit that was in flight) is the end of the log, not
+		// corruption: the failing exit taken for an error of reader.Read() excludes io.ErrUnexpectedEOF
+		rc := c.Fn(vsT + ".recover")
+		rd := c.One(rc, invokeOn("", "Read"), "reader.Read()")
+		rfacts := p.MustFacts(rc)
+		nTorn := 0
+		for _, b := range rc.Blocks {
+			r, ok := b.Instrs[len(b.Instrs)-1].(*ssa.Return)
+			if !ok || b == rc.Recover || len(r.Results) == 0 {
+				continue
+			}
+			ev := r.Results[len(r.Results)-1]
+			if eng.IsNilConst(ev) || !eng.DependsOn(ev, func(x ssa.Value) bool { return extractIs(x, rd.Instr.(ssa.Value), 1) }) {
+				continue
+			}
+			nTorn++
+			fs := rfacts.At(r)
+			excl := rfacts.Find(fs, "false", func(d string, _ ssa.Value) bool { return strings.Contains(d, "errors.Is(") && strings.Contains(d, "ErrUnexpectedEOF") }, nil)
+			excl = append(excl, rfacts.Find(fs, "ne", func(d string, _ ssa.Value) bool { return strings.Contains(d, "Read()") }, func(d string, _ ssa.Value) bool { return strings.Contains(d, "ErrUnexpectedEOF") })...)
+			c.Check(len(excl) > 0, fmt.Sprintf("torn-final-record-is-end-of-log[%d]", nTorn), r, rc,
+				"replay fails for a read error only when it is not io.ErrUnexpectedEOF: a record cut short can only be the last one — the commit that was being appended when the process died, never acknowledged — and every commit before it must stay readable",
+				"facts at the failing return: "+strings.Join(rfacts.Render(fs), " ; "))
+		}
+		c.Check(nTorn > 0, "read-error-exit-found", nil, rc, "recover has an exit for a failed record read", "")
 		n := c.Fn("kv.newStore")
 		if len(n.AnonFuncs) == 0 {
 			c.Undecided("newStore has no deferred closure")
 		}
 		neverBeforeDeep(c, n, eng.AnyCallTo("kv.store.deleteObsoleteFiles", "kv.store.deleteFamilyObsoleteFiles"), invokeOn(".versions", "Recover"), "deleteObsoleteFiles", "versions.Recover", 2)
+		// F25: the obsolete-file scans of an open run only when the open SUCCEEDED: after a failed replay the version set holds a
+		// partial state, and scanning with it removes the live manifest and every table the replay had not reached
+		for _, g := range append([]*ssa.Function{n}, n.AnonFuncs...) {
+			gf := p.MustFacts(g)
+			for i, cs := range p.SitesDirect(g, eng.AnyCallTo("kv.store.deleteObsoleteFiles", "kv.store.deleteFamilyObsoleteFiles")) {
+				okG := false
+				why := "not guarded by err == nil"
+				if g == n {
+					rcv := p.Sites(n, invokeOn(".versions", "Recover"))
+					if len(rcv) == 1 {
+						okG, why = eng.OkDominates(n, rcv[0].Instr, cs.Instr)
+					}
+				} else {
+					fs := gf.At(cs.Instr)
+					okG = len(gf.Find(fs, "eq", func(d string, v ssa.Value) bool {
+						u, ok := eng.Unwrap(v).(*ssa.UnOp)
+						if !ok {
+							return false
+						}
+						fv, ok := u.X.(*ssa.FreeVar)
+						return ok && fv.Name() == "err"
+					}, eng.DescIs("nil"))) > 0
+					why = "facts in the deferred closure: " + strings.Join(gf.Render(fs), " ; ")
+				}
+				c.Check(okG, fmt.Sprintf("cleanup-only-after-successful-open:%s[%d]", baseName(g.Name()), i), cs.Instr, g,
+					"the obsolete-file scans at open run only when the open succeeded (err == nil): with the partially replayed state of a failed Recover they would delete the manifest CURRENT names and tables that are referenced by records not yet replayed",
+					why)
+			}
+		}
 		fam := p.Sites(n, eng.MapUpdateOf("kv.store.families"))
 		recv := c.One(n, invokeOn(".versions", "Recover"), "versions.Recover()")
 		for i, s := range fam {
